@@ -3,7 +3,7 @@
    is its first projection.  All theorems are for arbitrary FmtStrs (any number
    of runs, empty runs, no runs).  Reference operations: Spec/ListOps.v. *)
 From Curtsies Require Import Model.Base Spec.ListOps Model.Slice Proofs.Slice.
-Close Scope N_scope.
+Local Close Scope N_scope.
 Local Open Scope Z_scope.
 
 (* ---- slicing: every pair of bounds, any integer or omitted ---------------- *)
@@ -133,3 +133,11 @@ Proof. vm_compute. split; reflexivity. Qed.
 
 Example C06_mul_nonvacuous : text (mul ex_f 2%Z) = [97;98;99;100;101;102;97;98;99;100;101;102].
 Proof. vm_compute. reflexivity. Qed.
+
+Example C06_add_nonvacuous :     (* 'x' + f and f + f; the str's character is unformatted *)
+  cells (radd [C [98] (A 2 0 0 0 0 0 0 0)] (OStr [120])) = [(120, sgr_default); (98, Sg 2 0 0 0 0 0 0 0)] /\
+  text (add ex_f (OFmt ex_f)) = [97;98;99;100;101;102;97;98;99;100;101;102].
+Proof. vm_compute. split; reflexivity. Qed.
+
+Example C06_len_nonvacuous : len ex_f = 6%Z /\ len [] = 0%Z.
+Proof. vm_compute. split; reflexivity. Qed.
